@@ -106,3 +106,35 @@ Theorem C18_proper_cycle_is_clean : forall c, Inv c ->
   clean c /\ length (cyc_reset (clen c) (ptrs c) (cstart c)) = length (ptrs c).
 Proof. exact inv_clean. Qed.
 Print Assumptions C18_proper_cycle_is_clean.
+
+From Coq Require Import ZArith List Arith.
+From MV Require Import Model.Cycle Proofs.CycleProofs Proofs.CycleInv Proofs.CycleClosed.
+Import ListNotations.
+
+(* the fan of new triangles (cur, next, p) around the boundary cycle has the cycle as its boundary: the telescoping sum
+   over the closed walk cancels everything that involves the new plane p *)
+Theorem C18_fan_boundary_is_cycle : forall c q x y, Inv c -> (0 < clen c)%nat ->
+  (x < length (ptrs c))%nat -> (y < length (ptrs c))%nat ->
+  dsum (fan q (cyc_iter c (S (clen c)))) x y = pchain (ptrs c) x y.
+Proof. exact fan_boundary. Qed.
+Print Assumptions C18_fan_boundary_is_cycle.
+
+(* hence a clip maps a closed oriented surface of dual triangles to a closed oriented surface, whatever the order of the
+   vertices; the new triangles only mention existing planes and the new one *)
+Theorem C18_clip_preserves_closed_surface : forall (V : Type) (vdual : V -> dual) (vdefault : V) c removed vs p_idx c' kept nd,
+  Inv c -> duals_in_range V vdual (length (ptrs c)) vs -> distinct_duals V vdual vs ->
+  p_idx = length (ptrs c) ->
+  clip_comb V vdual vdefault c removed vs p_idx = Some (c', kept, nd) ->
+  closed_surface (map vdual vs) ->
+  closed_surface (map vdual kept ++ nd) /\ Forall (dual_lt (length (ptrs c'))) (map vdual kept ++ nd).
+Proof. exact clip_preserves_closed_surface. Qed.
+Print Assumptions C18_clip_preserves_closed_surface.
+
+(* ... every new triangle has three distinct planes, and the cycle array grew by exactly the new plane *)
+Theorem C18_clip_shape : forall (V : Type) (vdual : V -> dual) (vdefault : V) c removed vs p_idx c' kept nd,
+  Inv c -> duals_in_range V vdual (length (ptrs c)) vs -> distinct_duals V vdual vs ->
+  p_idx = length (ptrs c) ->
+  clip_comb V vdual vdefault c removed vs p_idx = Some (c', kept, nd) ->
+  (nd <> [] -> length (ptrs c') = S (length (ptrs c))) /\ Forall dual_distinct (map vdual kept ++ nd).
+Proof. exact clip_comb_shape. Qed.
+Print Assumptions C18_clip_shape.
